@@ -11,6 +11,7 @@
 //   conv    IT PAT LAY KIND EXTS [STRIDES]      KIND: stride | dyn | lr | toleft | toright
 //   mdspan  IT PAT LAY ACC  EXTS [STRIDES]      ACC: call | arr | span | br
 //   mdarray IT PAT LAY CTOR ACC EXTS            CTOR: ext extval map mapval cont contmv copy conv span spanal strided alloc allocval variadic
+//                                               arrext arrval arrcont (std::array container, fully static extents)
 //   span    N EXT : op;op;...                   op: first c | last c | sub o c|d | tfirst c | tlast c | tsub o c|d | at i | fb | iter | conv
 // IT: int|size|short, PAT: one char per dimension, 'd' = dynamic_extent, digit = static extent, "-" = rank 0,
 // LAY: left|right|stride, EXTS/STRIDES: [a,b,c] (all `rank` extents; the constructor form decides what is passed).
@@ -156,7 +157,8 @@ static std::string checkMap(int lay, const VL& ext, const VL& str, const MapObs&
   } else {
     long want = ext.empty() ? 1 : (n == 0 ? 0 : maxExp + 1);
     if (o.rss != want) return "required_span_size " + std::to_string(o.rss) + " expected " + std::to_string(want);
-    if (o.exh && (long)distinct.size() != o.rss) return "is_exhaustive() true but the range has gaps";
+    // (for strides that do not make a unique mapping - a violated precondition - nothing is demanded of is_exhaustive)
+    if (o.exh && (long)distinct.size() == n && (long)distinct.size() != o.rss) return "is_exhaustive() true but the range has gaps";
   }
   // strides: definition and unit steps
   if (!ext.empty()) {
@@ -444,6 +446,60 @@ template <class E, class L> Result doMdspan(const Ctx& c) {
   return res;
 }
 
+// everything after construction: sizes, initial contents, element access, views, copies
+template <class E, class L, class A, class M>
+Result mdarrayBody(A& a, const M& m, const Ctx& c, const std::vector<VL>& tuples, std::map<VL, long>& exp, long want,
+                   const std::vector<int>& expectInit, Result res) {
+  using I = typename E::index_type;
+  constexpr std::size_t R = E::rank();
+  long csize = long(a.container_size());
+  std::vector<int> init(a.container().begin(), a.container().end());
+  if (csize != want) orFail(res, "mdarray", "container_size " + std::to_string(csize) + " but required span is " + std::to_string(want));
+  if (init != expectInit) orFail(res, "mdarray", "initial contents");
+  // every element as seen through the array equals the element of the source it was built from
+  for (auto& t : tuples)
+    if (exp[t] < csize && accessAtC(std::as_const(a), c.acc, toArr<I, R>(t)) != expectInit[exp[t]]) orFail(res, "mdarray", "element after construction at " + listStr(t));
+  std::vector<int> shadow(init);
+  long n = 0;
+  for (auto& t : tuples) {
+    int& ref = accessAt(a, c.acc, toArr<I, R>(t));
+    if (&ref != a.container_data() + exp[t]) orFail(res, "mdarray", "reference is not the designated element at " + listStr(t));
+    ref = int(100 + n);
+    if (exp[t] >= 0 && exp[t] < (long)shadow.size()) shadow[exp[t]] = int(100 + n);
+    ++n;
+  }
+  std::vector<int> after(a.container().begin(), a.container().end());
+  if (after != shadow) orFail(res, "mdarray", "writes did not hit exactly the designated elements");
+  VL view, ext;
+  auto vw = a.to_mdspan();
+  auto cvw = std::as_const(a).to_mdspan();
+  S::mdspan<int, E, L> vw2 = a;  // conversion operator
+  for (auto& t : tuples) {
+    int& r1 = accessAt(vw, "call", toArr<I, R>(t));
+    const int& r2 = accessAtC(cvw, c.acc, toArr<I, R>(t));
+    int& r3 = accessAt(vw2, "call", toArr<I, R>(t));
+    if (&r1 != a.container_data() + exp[t] || &r2 != &r1 || &r3 != &r1) orFail(res, "mdarray", "to_mdspan view refers to a different element at " + listStr(t));
+    view.push_back(r1);
+  }
+  A b(a);  // copies own their elements
+  if (!(b == a)) orFail(res, "mdarray", "copy compares unequal");
+  if (!tuples.empty()) {
+    accessAt(b, "call", toArr<I, R>(tuples.front())) = -5;
+    if (std::vector<int>(a.container().begin(), a.container().end()) != after) orFail(res, "mdarray", "writing to a copy changed the original");
+    if (b == a) orFail(res, "mdarray", "modified copy still compares equal");
+  }
+  if constexpr (R > 0)
+    for (std::size_t r = 0; r < R; ++r) {
+      ext.push_back(long(a.extent(r)));
+      if (long(a.stride(r)) != long(m.stride(r))) orFail(res, "mdarray", "stride()");
+    }
+  if (ext != c.ext) orFail(res, "mdarray", "extents");
+  if (long(a.size()) != want || a.empty() != (want == 0)) orFail(res, "mdarray", "size()/empty()");
+  res.impl = "csize=" + std::to_string(csize) + " size=" + std::to_string(long(a.size())) + " ext=" + listStr(ext) +
+             " init=" + listStr(init) + " cont=" + listStr(after) + " view=" + listStr(view);
+  return res;
+}
+
 template <class E, class L> Result doMdarray(const Ctx& c) {
   if constexpr (isStride<L>) throw BadOp{};
   else {
@@ -493,54 +549,20 @@ template <class E, class L> Result doMdarray(const Ctx& c) {
       if constexpr (R > 0) std::apply([&](auto... x) { aO.emplace(x...); }, toArr<I, R>(c.ext));
       else throw BadOp{};
     }
+    else if (k == "arrext" || k == "arrval" || k == "arrcont") {
+      // std::array container (Impl::ContainerConstructionTraits<std::array>): fully static extents only
+      if constexpr (R > 0 && E::rank_dynamic() == 0) {
+        constexpr std::size_t N = []() { std::size_t p = 1; for (std::size_t r = 0; r < R; ++r) p *= E::static_extent(r); return p; }();
+        using A2 = S::mdarray<int, E, L, std::array<int, N>>;
+        std::optional<A2> a2;
+        if (k == "arrext") a2.emplace(e);
+        else if (k == "arrval") { a2.emplace(e, 7); expectInit.assign(want, 7); }
+        else { std::array<int, N> ca{}; for (std::size_t q = 0; q < N; ++q) ca[q] = int(10 + q); a2.emplace(e, ca); expectInit = cont; }
+        return mdarrayBody<E, L>(*a2, m, c, tuples, exp, want, expectInit, res);
+      } else throw BadOp{};
+    }
     else throw BadOp{};
-    A& a = *aO;
-    long csize = long(a.container_size());
-    std::vector<int> init(a.container().begin(), a.container().end());
-    if (csize != want) orFail(res, "mdarray", "container_size " + std::to_string(csize) + " but required span is " + std::to_string(want));
-    if (init != expectInit) orFail(res, "mdarray", "initial contents");
-    // every element as seen through the array equals the element of the source it was built from
-    for (auto& t : tuples)
-      if (exp[t] < csize && accessAtC(std::as_const(a), c.acc, toArr<I, R>(t)) != expectInit[exp[t]]) orFail(res, "mdarray", "element after construction at " + listStr(t));
-    std::vector<int> shadow(init);
-    long n = 0;
-    for (auto& t : tuples) {
-      int& ref = accessAt(a, c.acc, toArr<I, R>(t));
-      if (&ref != a.container_data() + exp[t]) orFail(res, "mdarray", "reference is not the designated element at " + listStr(t));
-      ref = int(100 + n);
-      if (exp[t] >= 0 && exp[t] < (long)shadow.size()) shadow[exp[t]] = int(100 + n);
-      ++n;
-    }
-    std::vector<int> after(a.container().begin(), a.container().end());
-    if (after != shadow) orFail(res, "mdarray", "writes did not hit exactly the designated elements");
-    VL view, ext;
-    auto vw = a.to_mdspan();
-    auto cvw = std::as_const(a).to_mdspan();
-    S::mdspan<int, E, L> vw2 = a;  // conversion operator
-    for (auto& t : tuples) {
-      int& r1 = accessAt(vw, "call", toArr<I, R>(t));
-      const int& r2 = accessAtC(cvw, c.acc, toArr<I, R>(t));
-      int& r3 = accessAt(vw2, "call", toArr<I, R>(t));
-      if (&r1 != a.container_data() + exp[t] || &r2 != &r1 || &r3 != &r1) orFail(res, "mdarray", "to_mdspan view refers to a different element at " + listStr(t));
-      view.push_back(r1);
-    }
-    A b(a);  // copies own their elements
-    if (!(b == a)) orFail(res, "mdarray", "copy compares unequal");
-    if (!tuples.empty()) {
-      accessAt(b, "call", toArr<I, R>(tuples.front())) = -5;
-      if (std::vector<int>(a.container().begin(), a.container().end()) != after) orFail(res, "mdarray", "writing to a copy changed the original");
-      if (b == a) orFail(res, "mdarray", "modified copy still compares equal");
-    }
-    if constexpr (R > 0)
-      for (std::size_t r = 0; r < R; ++r) {
-        ext.push_back(long(a.extent(r)));
-        if (long(a.stride(r)) != long(m.stride(r))) orFail(res, "mdarray", "stride()");
-      }
-    if (ext != c.ext) orFail(res, "mdarray", "extents");
-    if (long(a.size()) != want || a.empty() != (want == 0)) orFail(res, "mdarray", "size()/empty()");
-    res.impl = "csize=" + std::to_string(csize) + " size=" + std::to_string(long(a.size())) + " ext=" + listStr(ext) +
-               " init=" + listStr(init) + " cont=" + listStr(after) + " view=" + listStr(view);
-    return res;
+    return mdarrayBody<E, L>(*aO, m, c, tuples, exp, want, expectInit, res);
   }
 }
 
@@ -585,45 +607,36 @@ static void registerTypes() {
   reg<int, false, 0>("int", "0");
   reg<int, false, 1>("int", "1");
   reg<int, true, 3>("int", "3");
-  reg<sz, true, D>("size", "d");
-  reg<sz, false, 4>("size", "4");
+  reg<sz, false, D>("size", "d");
   reg<short, true, D>("short", "d");
   reg<short, false, 2>("short", "2");
   // rank 2
-  reg<int, true, D, D>("int", "dd");
+  reg<int, false, D, D>("int", "dd");
   reg<int, true, D, 3>("int", "d3");
   reg<int, false, 2, D>("int", "2d");
   reg<int, true, 2, 3>("int", "23");
   reg<int, false, 0, D>("int", "0d");
-  reg<int, false, D, 1>("int", "d1");
   reg<sz, true, D, D>("size", "dd");
   reg<sz, false, 4, 0>("size", "40");
-  reg<sz, true, 3, D>("size", "3d");
-  reg<short, true, D, D>("short", "dd");
   reg<short, false, D, 2>("short", "d2");
   reg<short, false, 1, 4>("short", "14");
   // rank 3
-  reg<int, true, D, D, D>("int", "ddd");
+  reg<int, false, D, D, D>("int", "ddd");
   reg<int, true, 2, D, 3>("int", "2d3");
   reg<int, false, D, 3, D>("int", "d3d");
-  reg<int, false, 1, 2, 3>("int", "123");
   reg<int, false, D, D, 0>("int", "dd0");
-  reg<sz, true, D, D, D>("size", "ddd");
+  reg<sz, false, D, D, D>("size", "ddd");
   reg<sz, false, 3, 1, D>("size", "31d");
-  reg<sz, false, 2, 2, 2>("size", "222");
   reg<short, true, D, D, D>("short", "ddd");
-  reg<short, false, D, 4, D>("short", "d4d");
   // rank 4
   reg<int, true, D, D, D, D>("int", "dddd");
-  reg<int, true, 2, D, D, 3>("int", "2dd3");
+  reg<int, false, 2, D, D, 3>("int", "2dd3");
   reg<int, false, D, 1, D, 2>("int", "d1d2");
   reg<int, false, 2, 3, 1, 2>("int", "2312");
-  reg<int, false, D, 2, 0, D>("int", "d20d");
   reg<sz, true, D, D, D, D>("size", "dddd");
   reg<sz, false, 3, D, 2, D>("size", "3d2d");
   reg<short, true, D, D, D, D>("short", "dddd");
   reg<short, false, D, D, D, 4>("short", "ddd4");
-  reg<short, false, 2, D, 1, D>("short", "2d1d");
 }
 static const Entry* findEntry(const std::string& key) {
   for (auto& kv : table()) if (kv.first == key) return &kv.second;
@@ -963,7 +976,7 @@ static const std::vector<std::string> CTORS = {"vfull", "vdyn", "afull", "adyn",
 static const std::vector<std::string> LAYS = {"left", "right", "stride"};
 static const std::vector<std::string> ACCS = {"call", "arr", "span", "br"};
 static const std::vector<std::string> ACTORS = {"ext", "extval", "map", "mapval", "cont", "contmv", "copy", "conv",
-                                                "span", "spanal", "strided", "alloc", "allocval", "variadic"};
+                                                "span", "spanal", "strided", "alloc", "allocval", "variadic", "arrext", "arrval", "arrcont"};
 
 static std::string keyIt(const std::string& key) { return key.substr(0, key.find(':')); }
 static std::string keyPat(const std::string& key) { return key.substr(key.find(':') + 1); }
@@ -1043,6 +1056,11 @@ static std::string genOne(Rng& r, const std::string& kind, const std::string& ke
     if (acc == "br" && R != 1) acc = "arr";
     std::string ct = r.pick(ACTORS);
     if (ct == "variadic" && R == 0) ct = "ext";
+    if (ct.rfind("arr", 0) == 0) {
+      bool allStatic = R > 0;
+      for (long q : patv) allStatic = allStatic && q >= 0;
+      if (!allStatic) ct = ct == "arrext" ? "ext" : ct == "arrval" ? "extval" : "cont";
+    }
     os << (r.coin() ? "left" : "right") << " " << ct << " " << acc << " " << listStr(ext);
   }
   (void)full;
